@@ -38,7 +38,7 @@ var (
 	seed    = flag.Int64("seed", 1, "seed")
 	nseq    = flag.Int("n", 2, "pre-states")
 	_       = flag.Int("len", 0, "unused")
-	profile = flag.String("profile", "all", "all | write (only data writes: what a replica answers when a call of a write fails)")
+	profile = flag.String("profile", "all", "all | write (only data writes: what a replica answers when a call of a write fails) | snap (only snapshots)")
 	drv     = flag.String("drv", "/verif/lean/.lake/build/bin/drv", "model driver")
 	replay  = flag.String("replay", "", "replay file")
 	outDir  = flag.String("out", "/verif/replays", "replay dir")
@@ -325,6 +325,9 @@ func opsFor(p prestate, dir string) []string {
 	ops := []string{"snap c1 u", "snap c2 a", "resize 12", "ckpt s1", "w 5 9 77", "mark s2", "revert s1", "close"}
 	if *profile == "write" {
 		return []string{"w 5 9 77", "w 8 16 78"}
+	}
+	if *profile == "snap" {
+		return []string{"snap c1 u", "snap c2 a"}
 	}
 	if p.name == "deletable" {
 		ops = append(ops, "PRE:mark s2;coal s2|rm s2")
